@@ -326,6 +326,22 @@ def compile_source(s, avx, strict, export_static):
         return out
 
 
+def compile_shim(strict):
+    """bodies of the x86 builtins CBMC does not model (trusted stubs, /verif/shim/builtins.c)"""
+    out = os.path.join(SRC_CACHE, "shim_builtins.%d.gb" % int(strict))
+    with _src_lock:
+        lk = _src_locks.setdefault(out, threading.Lock())
+    with lk:
+        if not os.path.exists(out):
+            os.makedirs(SRC_CACHE, exist_ok=True)
+            cmd = ["goto-cc", "-c", os.path.join(VERIF, "shim", "builtins.c"), "-o", out + ".tmp"] + (["-DSHIM_STRICT"] if strict else [])
+            rc, o, e = run(cmd, timeout=120)
+            if rc != 0:
+                raise Undecided("goto-cc failed on shim: " + (e or o)[-400:])
+            os.rename(out + ".tmp", out)
+    return out
+
+
 def compile_job(job, wd):
     os.makedirs(wd, exist_ok=True)
     defs = ["-DNDEBUG", "-D" + GUARD, "-D__CPROVER_VERIF__"]
@@ -333,6 +349,9 @@ def compile_job(job, wd):
         defs.append("-D%s=%s" % (k, v) if v is not None and v != "" else "-D%s" % k)
     inc = ["-I" + SRC, "-I" + os.path.join(VERIF, "contracts")]
     gbs = [compile_source(s, job.avx or "avx" in s or "fma" in s, job.strict_shim, job.export_static) for s in job.sources]
+    if job.avx or any(("avx" in s or "fma" in s) for s in job.sources):
+        gbs.append(compile_shim(job.strict_shim))
+    gbs.append(os.path.join(VERIF, "shim", "cpu_supports.c"))
     h = os.path.join(VERIF, "contracts", job.harness)
     a = os.path.join(wd, "a.gb")
     cmd = ["goto-cc", "--function", job.entry, h] + gbs + ["-o", a] + defs + inc
